@@ -57,6 +57,48 @@ theorem splitIDDomain_eq_serverOf (sigil : UInt8) (hs : (sigil == 0x3A) = false)
       exact cutAt_cons_ne this rest
     · simp [hc]
 
+/-! ### Exact member names -/
+
+/-- members under other names do not matter to the exact, last-match lookup -/
+theorem foldl_exact_filter (name : Bytes) : ∀ (kvs : List (Bytes × JVal)) (acc : Option JVal),
+    kvs.foldl (fun acc kv => if kv.1 == name then some kv.2 else acc) acc =
+      (kvs.filter (fun kv => kv.1 == name)).foldl (fun acc kv => if kv.1 == name then some kv.2 else acc) acc
+  | [], _ => rfl
+  | kv :: rest, acc => by
+    by_cases h : (kv.1 == name) = true
+    · simp only [List.foldl_cons, List.filter_cons, h, if_true]
+      exact foldl_exact_filter name rest _
+    · simp only [List.foldl_cons, List.filter_cons, h]
+      exact foldl_exact_filter name rest _
+
+/-- A name that does not occur is not found … -/
+theorem lookupExact_of_absent {kvs : List (Bytes × JVal)} {name : Bytes} (h : Spec.exactMember kvs name = .absent) :
+    lookupExact kvs name = none := by
+  unfold Spec.exactMember at h
+  unfold lookupExact
+  rw [foldl_exact_filter]
+  split at h
+  · rename_i hf; rw [hf]; rfl
+  · cases h
+  · cases h
+
+/-- … and a name that occurs once is found with its value: on JSON objects in the proper sense (no repeated name)
+    the code's lookup (last member of that exact name) is THE member of that name. -/
+theorem lookupExact_of_val {kvs : List (Bytes × JVal)} {name : Bytes} {v : JVal} (h : Spec.exactMember kvs name = .val v) :
+    lookupExact kvs name = some v := by
+  unfold Spec.exactMember at h
+  unfold lookupExact
+  rw [foldl_exact_filter]
+  split at h
+  · cases h
+  · rename_i kv hf
+    have hmem : kv ∈ kvs.filter (fun kv => kv.1 == name) := by rw [hf]; exact List.mem_singleton.mpr rfl
+    have hk : (kv.1 == name) = true := by simpa using (List.mem_filter.mp hmem).2
+    rw [hf]
+    injection h with h
+    simp only [List.foldl_cons, List.foldl_nil, hk, if_true, h]
+  · cases h
+
 /-! ### The membership of a member event -/
 
 theorem membership_of_spec (e : Event) (m : Bytes) (h : Spec.membershipOf e = some m) :
@@ -73,16 +115,48 @@ theorem membership_of_spec (e : Event) (m : Bytes) (h : Spec.membershipOf e = so
       | null => simp [hc, hk] at h; simp [h]
       | obj kvs =>
         simp only [hc, hk] at h
-        cases hl : lookupField kvs b!"membership" with
-        | none => simp [hl] at h; simp [hl, decString, h]
-        | some v =>
-          cases v <;> simp [hl] at h
-          · simp [hl, decString, h]
-          · simp [hl, decString, h]
+        cases hx : Spec.exactMember kvs b!"membership" with
+        | absent =>
+          rw [hx] at h
+          cases h
+          simp [lookupExact_of_absent hx, decString]
+        | dup => rw [hx] at h; cases h
+        | val v =>
+          rw [hx] at h
+          cases v with
+          | str s' =>
+            cases h
+            simp [lookupExact_of_val hx, decString]
+          | null =>
+            cases h
+            simp [lookupExact_of_val hx, decString]
+          | bool b => cases h
+          | num l => cases h
+          | arr xs => cases h
+          | obj kvs' => cases h
       | bool b => simp [hc, hk] at h
       | num l => simp [hc, hk] at h
       | str s => simp [hc, hk] at h
       | arr xs => simp [hc, hk] at h
+
+/-- a non-empty membership comes from a content that is an object -/
+theorem membership_obj (e : Event) (m : Bytes) (h : membership e = .ok m) (hm : m ≠ []) :
+    ∃ kvs, e.content = some (.obj kvs) := by
+  unfold membership membershipField at h
+  cases hc : e.content with
+  | none => simp [hc] at h
+  | some c =>
+    cases c with
+    | obj kvs => exact ⟨kvs, rfl⟩
+    | null =>
+      simp only [hc] at h
+      split at h
+      · cases h
+      · cases h; exact absurd rfl hm
+    | bool b => simp [hc] at h
+    | num l => simp [hc] at h
+    | str s => simp [hc] at h
+    | arr xs => simp [hc] at h
 
 /-- `Membership()` either fails or yields the membership of an event that has a state key. -/
 theorem membership_cases (e : Event) :
@@ -120,33 +194,44 @@ theorem mem_addNeeded (s x : Bytes) (l : List Bytes) : x ∈ addNeeded s l ↔ x
   · simp only [h]
     simp [List.mem_append, or_comm]
 
-/-- `extractAuthorisedViaServerName` against the specification's reading of the member. -/
-theorem extract_spec (content : Option JVal) :
-    extractAuthorisedVia content =
-      match content with
-      | some (.obj kvs) =>
-        match getFirst kvs b!"join_authorised_via_users_server" with
-        | none => .ok []
-        | some (.str u) =>
-          match Spec.serverOf 0x40 u with
-          | some d => if d.isEmpty then .error (errRej "authorised-via") else .ok d
-          | none => .error (errRej "authorised-via")
-        | some _ => .error (errRej "authorised-via")
-      | _ => .ok [] := by
+theorem mem_addNeeded' (s x : Bytes) (l : List Bytes) (h : x ∈ l) : x ∈ addNeeded s l := by
+  unfold addNeeded
+  split
+  · exact h
+  · exact List.mem_append_left _ h
+
+theorem self_addNeeded (s : Bytes) (l : List Bytes) : s ∈ addNeeded s l := by
+  unfold addNeeded
+  split
+  · rename_i h; simpa using h
+  · simp
+
+/-- `extractAuthorisedViaServerName` on a content object: the member named exactly
+    `join_authorised_via_users_server` (last match), which must be a user ID string with a non-empty server name. -/
+theorem extract_spec (kvs : List (Bytes × JVal)) :
+    extractAuthorisedVia (some (.obj kvs)) =
+      match lookupExact kvs b!"join_authorised_via_users_server" with
+      | none => .ok []
+      | some (.str u) =>
+        match Spec.serverOf 0x40 u with
+        | some d => if d.isEmpty then .error (errRej "authorised-via") else .ok d
+        | none => .error (errRej "authorised-via")
+      | some _ => .error (errRej "authorised-via") := by
   unfold extractAuthorisedVia
-  cases content with
+  simp only
+  cases lookupExact kvs b!"join_authorised_via_users_server" with
   | none => rfl
-  | some c =>
-    cases c with
-    | obj kvs =>
-      simp only
-      cases getFirst kvs b!"join_authorised_via_users_server" with
-      | none => rfl
-      | some v =>
-        cases v <;> simp only []
-        rw [splitIDDomain_eq_serverOf 0x40 (by decide)]
-        cases Spec.serverOf 0x40 _ <;> rfl
-    | _ => rfl
+  | some v =>
+    cases v with
+    | str u =>
+      simp only [decString, Bool.false_eq_true, if_false]
+      rw [splitIDDomain_eq_serverOf 0x40 (by decide)]
+      cases Spec.serverOf 0x40 u <;> rfl
+    | null => rfl
+    | bool b => rfl
+    | num l => rfl
+    | arr xs => rfl
+    | obj kvs' => rfl
 
 /-- What the theorem `required_eq_spec` says for each answer of the specification. -/
 def Agrees (spec : Spec.Req) (model : Except Err (List Bytes)) : Prop :=
@@ -157,9 +242,10 @@ def Agrees (spec : Spec.Req) (model : Except Err (List Bytes)) : Prop :=
 
 /-- **The servers the code requires are the servers the property names**: the sender's server; in room
     versions 1–2 the server named in the event ID; for invites the invited user's server; for joins carrying
-    `join_authorised_via_users_server`, in versions with restricted joins, that user's server.  When one of
-    them cannot be determined (malformed event ID / state key / authorising user, or an authorising user
-    `@user:` without server name) the code rejects. -/
+    `join_authorised_via_users_server`, in versions with restricted joins, that user's server — "the membership"
+    and "join_authorised_via_users_server" being the members of the content with EXACTLY these names (no side
+    condition about other spellings: they are not read).  When one of the servers cannot be determined (malformed
+    event ID / state key / authorising user, or an authorising user `@user:` without server name) the code rejects. -/
 theorem required_eq_spec (row : VGen.VersionRow) (hc : ColsOk row) (e : Event) (d : Bytes) :
     Agrees (Spec.required row.key e (some d)) (requiredSigners row e (.ok (some d))) := by
   obtain ⟨hid, hrj, hrj2, _⟩ := hc
@@ -179,13 +265,14 @@ theorem required_eq_spec (row : VGen.VersionRow) (hc : ColsOk row) (e : Event) (
             else if m == b!"join" && Spec.supportsRestrictedJoins row.key then
               match e.content with
               | some (.obj kvs) =>
-                match getFirst kvs b!"join_authorised_via_users_server" with
-                | none => .servers (d :: idl)
-                | some (.str u) =>
+                match Spec.exactMember kvs b!"join_authorised_via_users_server" with
+                | .absent => .servers (d :: idl)
+                | .dup => .unspecified
+                | .val (.str u) =>
                   match Spec.serverOf 0x40 u with
                   | some d' => if d'.isEmpty then .undeterminable else .servers (d :: idl ++ [d'])
                   | none => .undeterminable
-                | some _ => .undeterminable
+                | .val _ => .undeterminable
               | _ => .servers (d :: idl)
             else .servers (d :: idl))
         (if e.type != b!"m.room.member" then .ok n1
@@ -235,43 +322,39 @@ theorem required_eq_spec (row : VGen.VersionRow) (hc : ColsOk row) (e : Event) (
         · simp only [hinv]
           by_cases hj : (m == b!"join") = true
           · simp only [hj, if_true, Bool.true_and]
+            have hmne : m ≠ [] := by
+              have := eq_of_beq hj; subst this; decide
+            obtain ⟨kvs, hcont⟩ := membership_obj e m hmem hmne
             unfold restrictedJoinServername
             by_cases hx : (row.restrictedJoinServernameFunc == "extractAuthorisedViaServerName") = true
-            · simp only [hx, if_true, ← hrj]
+            · simp only [hx, if_true, ← hrj, hcont]
               rw [extract_spec]
-              cases hcont : e.content with
-              | none => exact ⟨n1, rfl, fun s => by simp [hn1 s]⟩
-              | some c =>
-                cases c with
-                | obj kvs =>
+              cases hg : Spec.exactMember kvs b!"join_authorised_via_users_server" with
+              | absent =>
+                rw [lookupExact_of_absent hg]
+                exact ⟨n1, rfl, fun s => by simp [hn1 s]⟩
+              | dup => trivial
+              | val v =>
+                rw [lookupExact_of_val hg]
+                cases v with
+                | str u =>
                   simp only
-                  cases hg : getFirst kvs b!"join_authorised_via_users_server" with
-                  | none => exact ⟨n1, rfl, fun s => by simp [hn1 s]⟩
-                  | some v =>
-                    cases v with
-                    | str u =>
-                      simp only
-                      cases hso : Spec.serverOf 0x40 u with
-                      | none => exact ⟨_, rfl⟩
-                      | some d' =>
-                        by_cases hne' : d'.isEmpty = true
-                        · simp only [hne', if_true]
-                          exact ⟨_, rfl⟩
-                        have hne' : d'.isEmpty = false := by simpa using hne'
-                        simp only [hne', Bool.false_eq_true, if_false]
-                        refine ⟨_, rfl, fun s => ?_⟩
-                        simp only [mem_addNeeded, hn1 s, List.mem_cons, List.mem_append, List.not_mem_nil, or_false]
-                        grind
-                    | null => exact ⟨_, rfl⟩
-                    | bool b => exact ⟨_, rfl⟩
-                    | num l => exact ⟨_, rfl⟩
-                    | arr xs => exact ⟨_, rfl⟩
-                    | obj kvs' => exact ⟨_, rfl⟩
-                | null => exact ⟨n1, rfl, fun s => by simp [hn1 s]⟩
-                | bool b => exact ⟨n1, rfl, fun s => by simp [hn1 s]⟩
-                | num l => exact ⟨n1, rfl, fun s => by simp [hn1 s]⟩
-                | str s' => exact ⟨n1, rfl, fun s => by simp [hn1 s]⟩
-                | arr xs => exact ⟨n1, rfl, fun s => by simp [hn1 s]⟩
+                  cases hso : Spec.serverOf 0x40 u with
+                  | none => exact ⟨_, rfl⟩
+                  | some d' =>
+                    by_cases hne' : d'.isEmpty = true
+                    · simp only [hne', if_true]
+                      exact ⟨_, rfl⟩
+                    have hne' : d'.isEmpty = false := by simpa using hne'
+                    simp only [hne', Bool.false_eq_true, if_false]
+                    refine ⟨_, rfl, fun s => ?_⟩
+                    simp only [mem_addNeeded, hn1 s, List.mem_cons, List.mem_append, List.not_mem_nil, or_false]
+                    grind
+                | null => exact ⟨_, rfl⟩
+                | bool b => exact ⟨_, rfl⟩
+                | num l => exact ⟨_, rfl⟩
+                | arr xs => exact ⟨_, rfl⟩
+                | obj kvs' => exact ⟨_, rfl⟩
             · have hx' : (row.restrictedJoinServernameFunc == "extractAuthorisedViaServerName") = false := by
                 simpa using hx
               have he : (row.restrictedJoinServernameFunc == "emptyAuthorisedViaServerName") = true := by
@@ -432,17 +515,19 @@ theorem membership_ok_stateKey (e : Event) (m : Bytes) (h : membership e = .ok m
 
 theorem extract_err (c : Option JVal) (err : Err) (h : extractAuthorisedVia c = .error err) :
     err = errRej "authorised-via" := by
-  unfold extractAuthorisedVia at h
-  split at h
-  · split at h
-    · cases h
-    · split at h
-      · split at h
-        · cases h; rfl
-        · cases h
-      · cases h; rfl
-    · cases h; rfl
-  · cases h
+  cases c with
+  | none => simp [extractAuthorisedVia] at h; exact h.symm
+  | some c =>
+    cases c with
+    | obj kvs =>
+      rw [extract_spec] at h
+      repeat' split at h
+      all_goals first | (cases h; rfl) | cases h
+    | null => simp [extractAuthorisedVia] at h
+    | bool b => simp [extractAuthorisedVia] at h; exact h.symm
+    | num l => simp [extractAuthorisedVia] at h; exact h.symm
+    | str s => simp [extractAuthorisedVia] at h; exact h.symm
+    | arr xs => simp [extractAuthorisedVia] at h; exact h.symm
 
 theorem restricted_err (row : VGen.VersionRow) (hc : ColsOk row) (c : Option JVal) (err : Err)
     (h : restrictedJoinServername row c = .error err) : err = errRej "authorised-via" := by
@@ -517,19 +602,307 @@ theorem no_panic (row : VGen.VersionRow) (hc : ColsOk row) (e : Event) (sd : Exc
             · simp only [hinv] at hcontra
               exact hr _ hcontra
 
+/-! ### The tie to the auth rules (C07): whoever the auth rules take for the authoriser must sign
+
+`Allowed` decides a restricted join on `MemberContent.AuthorisedVia` as `NewMemberContentFromEvent` decodes it
+(`memberContent` is its model; the correspondence op `signers.member_reading` compares it, and the property's exact
+reading, with the real function).  Before the repair of K1 the two functions read DIFFERENT members: the auth rules a
+case variant (`Join_authorised_via_users_server`, last match after folding), the signature check the exact name only —
+a join "authorised" by a user whose server never signed was allowed. -/
+
+theorem decString_val_ne {v : Option JVal} (h : (decString v).val ≠ []) : ∃ s, v = some (.str s) ∧ (decString v).val = s := by
+  cases v with
+  | none => exact absurd rfl h
+  | some x => cases x <;> first | exact absurd rfl h | exact ⟨_, rfl, rfl⟩
+
+/-- what `memberContent` returns on an object -/
+theorem memberContent_obj {c : Option JVal} {r : MemberReading} (h : memberContent c = some r) (hm : r.membership ≠ []) :
+    ∃ kvs, c = some (.obj kvs) ∧ (decString (lookupExact kvs b!"membership")).err = false ∧
+      (decString (lookupExact kvs b!"membership")).val = r.membership ∧
+      (decString (lookupExact kvs b!"join_authorised_via_users_server")).val = r.authorisedVia := by
+  unfold memberContent at h
+  cases c with
+  | none => cases h
+  | some c =>
+    cases c with
+    | obj kvs =>
+      refine ⟨kvs, rfl, ?_⟩
+      simp only at h
+      split at h
+      · cases h
+      · split at h
+        · cases h
+        · rename_i hne
+          cases h
+          simp only [Bool.or_eq_true, not_or, Bool.not_eq_true] at hne
+          exact ⟨hne.1.1, rfl, rfl⟩
+    | null => simp only [Option.some.injEq] at h; subst h; exact absurd rfl hm
+    | bool b => cases h
+    | num l => cases h
+    | str s => cases h
+    | arr xs => cases h
+
+/-- **The membership the signature check reads is the membership the auth rules read** (both: the member named
+    exactly `membership`). -/
+theorem membership_eq_auth_reading (e : Event) (r : MemberReading) (m : Bytes)
+    (hread : memberContent e.content = some r) (hm : membership e = .ok m) : m = r.membership := by
+  unfold membership membershipField at hm
+  unfold memberContent at hread
+  cases hc : e.content with
+  | none => simp [hc] at hm
+  | some c =>
+    cases c with
+    | obj kvs =>
+      simp only [hc] at hm hread
+      split at hread
+      · cases hread
+      · split at hread
+        · cases hread
+        · cases hread
+          split at hm
+          · cases hm
+          · rename_i m' hm'
+            split at hm'
+            · cases hm'
+            · cases hm'
+              split at hm
+              · cases hm
+              · cases hm; rfl
+    | null =>
+      simp only [hc] at hm hread
+      cases hread
+      split at hm
+      · cases hm
+      · cases hm; rfl
+    | bool b => simp [hc] at hread
+    | num l => simp [hc] at hread
+    | str s => simp [hc] at hread
+    | arr xs => simp [hc] at hread
+
+/-- **The authoriser of the auth rules must sign.**  In a room version with restricted joins, for a join on which
+    `NewMemberContentFromEvent` yields a non-empty `AuthorisedVia`, every required-server list the signature check
+    computes contains that user's server (and if the server cannot be determined, there is no list: the event is
+    refused).  No hypothesis about how the content spells its member names. -/
+theorem auth_authoriser_required (row : VGen.VersionRow) (hc : ColsOk row)
+    (hrv : Spec.supportsRestrictedJoins row.key = true) (e : Event) (sd : Except Err (Option Bytes))
+    (htype : e.type = b!"m.room.member") (r : MemberReading) (hread : memberContent e.content = some r)
+    (hjoin : r.membership = b!"join") (hvia : r.authorisedVia ≠ [])
+    (l : List Bytes) (hl : requiredSigners row e sd = .ok l) :
+    ∃ dom, Spec.serverOf 0x40 r.authorisedVia = some dom ∧ dom ≠ [] ∧ dom ∈ l := by
+  obtain ⟨_, hrj, _, _⟩ := hc
+  have hx : (row.restrictedJoinServernameFunc == "extractAuthorisedViaServerName") = true := by rw [hrj]; exact hrv
+  have hmne : r.membership ≠ [] := by rw [hjoin]; decide
+  obtain ⟨kvs, hcont, _, hmv, hav⟩ := memberContent_obj hread hmne
+  have ht : (e.type != b!"m.room.member") = false := by rw [htype]; decide
+  unfold requiredSigners at hl
+  cases sd with
+  | error err => cases hl
+  | ok sdv =>
+    simp only at hl
+    split at hl
+    · cases hl
+    · rename_i n1 _
+      simp only [ht, Bool.false_eq_true, if_false] at hl
+      cases hmem : membership e with
+      | error err => rw [hmem] at hl; cases hl
+      | ok m =>
+        have hm := membership_eq_auth_reading e r m hread hmem
+        rw [hjoin] at hm
+        subst hm
+        rw [hmem] at hl
+        have hni : (b!"join" == b!"invite") = false := by decide
+        have hjj : (b!"join" == b!"join") = true := by decide
+        simp only [hni, Bool.false_eq_true, if_false, hjj, if_true] at hl
+        unfold restrictedJoinServername at hl
+        simp only [hx, if_true, hcont] at hl
+        rw [extract_spec] at hl
+        obtain ⟨u, hu, huv⟩ := decString_val_ne (v := lookupExact kvs b!"join_authorised_via_users_server") (by rw [hav]; exact hvia)
+        rw [hav] at huv
+        rw [hu] at hl
+        simp only at hl
+        rw [huv]
+        cases hso : Spec.serverOf 0x40 u with
+        | none => rw [hso] at hl; cases hl
+        | some dom =>
+          rw [hso] at hl
+          simp only at hl
+          by_cases hde : dom.isEmpty = true
+          · simp [hde] at hl
+          · have hde' : dom.isEmpty = false := by simpa using hde
+            simp only [hde', Bool.false_eq_true, if_false] at hl
+            cases hl
+            refine ⟨dom, rfl, ?_, self_addNeeded _ _⟩
+            intro hd; rw [hd] at hde; exact hde rfl
+
+/-- On a JSON object in the proper sense (no name twice) the reading of the auth rules IS what the content says under
+    the exact names (`Spec.memberReading`) — in particular a member under another spelling is not read. -/
+theorem memberContent_eq_spec (c : Option JVal) (r r' : MemberReading)
+    (h : memberContent c = some r) (hs : Spec.memberReading c = some r') : r = r' := by
+  unfold memberContent at h
+  unfold Spec.memberReading at hs
+  cases c with
+  | none => cases h
+  | some c =>
+    cases c with
+    | obj kvs =>
+      simp only at h hs
+      have key : ∀ name x, (match Spec.exactMember kvs name with
+            | .absent => some ([] : Bytes)
+            | .dup => none
+            | .val (.str x) => some x
+            | .val _ => some []) = some x → (decString (lookupExact kvs name)).val = x := by
+        intro name x hx
+        cases hm : Spec.exactMember kvs name with
+        | absent => rw [hm] at hx; cases hx; rw [lookupExact_of_absent hm]; rfl
+        | dup => rw [hm] at hx; cases hx
+        | val v =>
+          rw [hm] at hx
+          rw [lookupExact_of_val hm]
+          cases v <;> first | (cases hx; rfl)
+      split at hs
+      · rename_i m v hm hv
+        cases hs
+        split at h
+        · cases h
+        · split at h
+          · cases h
+          · cases h
+            rw [key _ _ hm, key _ _ hv]
+      · cases hs
+    | null => cases h; cases hs; rfl
+    | bool b => cases h
+    | num l => cases h
+    | str s => cases h
+    | arr xs => cases h
+
+/-- K1's witness: `@u:evil.com` joins with a case variant of the authoriser member naming `@admin:good.com`. -/
+def caseVariantViaWitness : Event :=
+  { ver := b!"10", eventID := b!"$e", obj :=
+      [(b!"type", .str b!"m.room.member"), (b!"sender", .str b!"@u:evil.com"), (b!"state_key", .str b!"@u:evil.com"),
+       (b!"content", .obj [(b!"membership", .str b!"join"),
+          (b!"Join_authorised_via_users_server", .str b!"@admin:good.com")])] }
+
+/-- K2's witness: an invite of `@v:good.com` with a second membership under another spelling. -/
+def caseVariantMembershipWitness : Event :=
+  { ver := b!"10", eventID := b!"$e", obj :=
+      [(b!"type", .str b!"m.room.member"), (b!"sender", .str b!"@u:evil.com"), (b!"state_key", .str b!"@v:good.com"),
+       (b!"content", .obj [(b!"membership", .str b!"invite"), (b!"Membership", .str b!"leave")])] }
+
+/-- K1: nobody authorised this join for the auth rules (before the repair `NewMemberContentFromEvent` answered
+    `@admin:good.com`, whose server was not required).  K2: the invite needs the invited user's server (before the
+    repair `Membership()` answered `leave` and `good.com` was not required). -/
+example : memberContent caseVariantViaWitness.content = some ⟨b!"join", []⟩ ∧
+    requiredList "10" caseVariantViaWitness b!"evil.com" = some [b!"evil.com"] ∧
+    memberContent caseVariantMembershipWitness.content = some ⟨b!"invite", []⟩ ∧
+    requiredList "10" caseVariantMembershipWitness b!"evil.com" = some [b!"evil.com", b!"good.com"] ∧
+    Spec.required "10" caseVariantMembershipWitness (some b!"evil.com") = .servers [b!"evil.com", b!"good.com"] := by
+  decide
+
+/-- The authoriser named twice (possible only in events from trusted JSON: the untrusted constructors refuse
+    repeated names): gjson — the reader `extractAuthorisedViaServerName` used before the repair — takes the FIRST
+    (`getFirst`), the auth rules the LAST; the signature check now requires the server of the user the auth rules take. -/
+def dupViaWitness : Event :=
+  { ver := b!"10", eventID := b!"$e", obj :=
+      [(b!"type", .str b!"m.room.member"), (b!"sender", .str b!"@u:evil.com"), (b!"state_key", .str b!"@u:evil.com"),
+       (b!"content", .obj [(b!"membership", .str b!"join"),
+          (b!"join_authorised_via_users_server", .str b!"@a:evil.com"),
+          (b!"join_authorised_via_users_server", .str b!"@admin:good.com")])] }
+
+example : getFirst [(b!"join_authorised_via_users_server", .str b!"@a:evil.com"),
+      (b!"join_authorised_via_users_server", .str b!"@admin:good.com")] b!"join_authorised_via_users_server" =
+    some (.str b!"@a:evil.com") := rfl
+
+example : memberContent dupViaWitness.content = some ⟨b!"join", b!"@admin:good.com"⟩ ∧
+    requiredList "10" dupViaWitness b!"evil.com" = some [b!"evil.com", b!"good.com"] := by decide
+
+/-- no member of the object is a different spelling that encoding/json would match with `name` -/
+def NoVariant (kvs : List (Bytes × JVal)) (name : Bytes) : Prop :=
+  ∀ kv ∈ kvs, foldBytes kv.1 = foldBytes name → kv.1 = name
+
+theorem lookupField_eq_exact (name : Bytes) : ∀ (kvs : List (Bytes × JVal)) (acc : Option JVal), NoVariant kvs name →
+    kvs.foldl (fun acc kv => if kv.1 == name || foldBytes kv.1 == foldBytes name then some kv.2 else acc) acc =
+      kvs.foldl (fun acc kv => if kv.1 == name then some kv.2 else acc) acc
+  | [], _, _ => rfl
+  | kv :: rest, acc, h => by
+    have hrest : NoVariant rest name := fun x hx => h x (List.mem_cons_of_mem _ hx)
+    have hkv : (kv.1 == name || foldBytes kv.1 == foldBytes name) = (kv.1 == name) := by
+      by_cases he : (kv.1 == name) = true
+      · simp [he]
+      · have he' : (kv.1 == name) = false := by simpa using he
+        by_cases hf : (foldBytes kv.1 == foldBytes name) = true
+        · have := h kv List.mem_cons_self (eq_of_beq hf)
+          rw [this] at he'
+          simp at he'
+        · simp [he', hf]
+    simp only [List.foldl_cons, hkv]
+    exact lookupField_eq_exact name rest _ hrest
+
+theorem lookupField_eq_lookupExact {kvs : List (Bytes × JVal)} {name : Bytes} (h : NoVariant kvs name) :
+    lookupField kvs name = lookupExact kvs name := lookupField_eq_exact name kvs none h
+
+theorem decodeMapping_of_auth (mm : Option JVal) (h1 : (Auth.decodeMxidMapping mm).snd = false)
+    (h2 : (Auth.decodeMxidMapping mm).fst.err = false) : ∃ x, decodeMapping mm = some x := by
+  unfold Auth.decodeMxidMapping at h1 h2
+  unfold decodeMapping
+  cases mm with
+  | none => exact ⟨_, rfl⟩
+  | some v =>
+    cases v with
+    | null => exact ⟨_, rfl⟩
+    | obj kvs =>
+      simp only at h1 h2 ⊢
+      cases hl : lookupField kvs b!"signatures" with
+      | none => simp only [h2, Bool.false_eq_true, if_false]; exact ⟨_, rfl⟩
+      | some sv =>
+        rw [hl] at h1
+        cases sv with
+        | null => simp only [Sign.decodeOuterInto, h2, Bool.false_eq_true, if_false]; exact ⟨_, rfl⟩
+        | bool b => simp at h1
+        | num l => simp at h1
+        | str s => simp at h1
+        | arr xs => simp at h1
+        | obj o => simp at h1
+    | bool b => simp at h2
+    | num l => simp at h2
+    | str s => simp at h2
+    | arr xs => simp at h2
+
+/-- **Bridge to C07's model.**  `VModel/Auth.lean` still models `NewMemberContentFromEvent` with the folded lookup
+    the code had before the repair of K1; on a content without other spellings of the four member names the auth
+    rules read, it agrees with `memberContent` (the repaired function).  Once `Auth.decodeMemberContent` uses
+    `lookupExact`, the hypothesis `hnv` disappears. -/
+theorem memberContent_eq_auth (kvs : List (Bytes × JVal))
+    (hnv : ∀ name ∈ [b!"membership", b!"third_party_invite", b!"join_authorised_via_users_server", b!"mxid_mapping"], NoVariant kvs name)
+    (mc : Auth.MemberContent) (hd : Auth.decodeMemberContent (some (.obj kvs)) = .ok mc) :
+    memberContent (some (.obj kvs)) = some ⟨mc.membership, mc.authorisedVia⟩ := by
+  have h1 := lookupField_eq_lookupExact (hnv b!"membership" (by simp))
+  have h2 := lookupField_eq_lookupExact (hnv b!"third_party_invite" (by simp))
+  have h3 := lookupField_eq_lookupExact (hnv b!"join_authorised_via_users_server" (by simp))
+  have h4 := lookupField_eq_lookupExact (hnv b!"mxid_mapping" (by simp))
+  unfold Auth.decodeMemberContent at hd
+  unfold memberContent
+  simp only [h1, h2, h3, h4] at hd
+  simp only
+  generalize lookupExact kvs b!"mxid_mapping" = mm at hd ⊢
+  generalize decString (lookupExact kvs b!"membership") = m at hd ⊢
+  generalize Auth.decodeThirdParty (lookupExact kvs b!"third_party_invite") = tp at hd ⊢
+  generalize decString (lookupExact kvs b!"join_authorised_via_users_server") = av at hd ⊢
+  split at hd
+  · cases hd
+  · rename_i hun
+    split at hd
+    · cases hd
+    · rename_i hne
+      cases hd
+      simp only [Bool.or_eq_true, not_or, Bool.not_eq_true] at hne
+      obtain ⟨x, hx⟩ := decodeMapping_of_auth mm (by simpa using hun) hne.2
+      rw [hx]
+      simp [hne.1.1.1, hne.1.1.2, hne.1.2]
+/-- the hypotheses of `memberContent_eq_auth` hold of an ordinary restricted join … -/
+example : memberContent (some (.obj [(b!"membership", .str b!"join"), (b!"join_authorised_via_users_server", .str b!"@a:hs2")])) =
+    some ⟨b!"join", b!"@a:hs2"⟩ := by decide
+
 /-! ### The pseudo-ID room version (org.matrix.msc4014) -/
-
-theorem mem_addNeeded' (s x : Bytes) (l : List Bytes) (h : x ∈ l) : x ∈ addNeeded s l := by
-  unfold addNeeded
-  split
-  · exact h
-  · exact List.mem_append_left _ h
-
-theorem self_addNeeded (s : Bytes) (l : List Bytes) : s ∈ addNeeded s l := by
-  unfold addNeeded
-  split
-  · rename_i h; simpa using h
-  · simp
 
 /-- In a pseudo-ID room the event verifies only if the sender's own key validly signed it. -/
 theorem pseudo_sender_required (row : VGen.VersionRow) (e : Event) (valid : Request → Bool) (vf : Bool)
@@ -562,8 +935,10 @@ theorem pseudo_sender_required (row : VGen.VersionRow) (e : Event) (valid : Requ
               · split at hr
                 · cases hr; cases h
                 · split at hr
-                  · cases hr
                   · cases hr; cases h
+                  · split at hr
+                    · cases hr
+                    · cases hr; cases h
         · cases hr
       · rename_i asked hs
         have hn1 : e.sender ∈ (if m == b!"invite" then
@@ -586,13 +961,14 @@ theorem pseudo_sender_required (row : VGen.VersionRow) (e : Event) (valid : Requ
             · exact mem_addNeeded' _ _ _ hn1
         · exact fin asked _ hn1 h
 
-/-- …and, for a join, only if the content carries an `mxid_mapping` whose signers include the server of the
-    user it names, and the caller's verifier accepts the mapping for EVERY server listed in
-    `mxid_mapping.signatures` — in particular for the user's (the sender's) server. -/
+/-- …and, for a join, only if the content carries an `mxid_mapping` FOR THE SENDER'S KEY (`user_room_key` = the
+    sender: K3 — before the repair any validly signed mapping, e.g. a victim's public one, was enough) whose
+    signers include the server of the user it names, and the caller's verifier accepts the mapping for EVERY server
+    listed in `mxid_mapping.signatures` — in particular for the user's (the sender's) server. -/
 theorem pseudo_mapping_signers_valid (row : VGen.VersionRow) (e : Event) (valid : Request → Bool) (vf : Bool)
     (selfValid : Bytes → Bool) (htype : e.type = b!"m.room.member") (hjoin : membership e = .ok b!"join")
     (h : (verifyPseudo row e valid vf selfValid).verdict = .ok ()) :
-    ∃ mp userServer, getMXIDMapping e = .ok mp ∧ vf = false ∧
+    ∃ mp userServer, getMXIDMapping e = .ok mp ∧ vf = false ∧ mp.userRoomKey = e.sender ∧
       Spec.serverOf 0x40 mp.userID = some userServer ∧ userServer ∈ mp.servers ∧
       ∀ s ∈ mp.servers, valid ⟨s, e.originServerTS, strictValidity row⟩ = true := by
   unfold verifyPseudo at h
@@ -602,6 +978,11 @@ theorem pseudo_mapping_signers_valid (row : VGen.VersionRow) (e : Event) (valid 
   | error err => simp [hg] at h
   | ok mp =>
     simp only [hg] at h
+    by_cases hkey : (mp.userRoomKey != e.sender) = true
+    · simp [hkey] at h
+    have hkey' : mp.userRoomKey = e.sender := by simpa using hkey
+    have hkeyb : (mp.userRoomKey != e.sender) = false := by simpa using hkey
+    simp only [hkeyb, Bool.false_eq_true, if_false] at h
     cases hsp : splitIDDomain 0x40 mp.userID with
     | none => simp [hsp] at h
     | some us =>
@@ -612,7 +993,7 @@ theorem pseudo_mapping_signers_valid (row : VGen.VersionRow) (e : Event) (valid 
         cases vf with
         | true => simp at h
         | false =>
-          refine ⟨rfl, by rw [← splitIDDomain_eq_serverOf 0x40 (by decide)]; exact hsp, by simpa using hc, ?_⟩
+          refine ⟨rfl, hkey', by rw [← splitIDDomain_eq_serverOf 0x40 (by decide)]; exact hsp, by simpa using hc, ?_⟩
           by_cases ha : mp.servers.all (fun s => valid ⟨s, e.originServerTS, strictValidity row⟩) = true
           · intro s hs
             exact List.all_eq_true.mp ha s hs
@@ -620,6 +1001,18 @@ theorem pseudo_mapping_signers_valid (row : VGen.VersionRow) (e : Event) (valid 
       · have hc' : mp.servers.contains us = false := by simpa using hc
         simp only [hc', Bool.not_false, if_true] at h
         cases h
+
+/-- **K3, as a refusal**: a pseudo-ID join whose `mxid_mapping` is for another key than the sender never verifies —
+    whatever the caller's verifier says about the mapping's signatures and whoever self-signed the event. -/
+theorem pseudo_foreign_mapping_rejected (row : VGen.VersionRow) (e : Event) (valid : Request → Bool) (vf : Bool)
+    (selfValid : Bytes → Bool) (htype : e.type = b!"m.room.member") (hjoin : membership e = .ok b!"join")
+    (mp : Mapping) (hmp : getMXIDMapping e = .ok mp) (hkey : mp.userRoomKey ≠ e.sender) :
+    (verifyPseudo row e valid vf selfValid).verdict ≠ .ok () := by
+  intro h
+  obtain ⟨mp', _, hmp', _, hk, _⟩ := pseudo_mapping_signers_valid row e valid vf selfValid htype hjoin h
+  rw [hmp] at hmp'
+  cases hmp'
+  exact hkey hk
 
 /-- A join whose mapping carries no signatures is rejected whatever the verifier and the sender's key say
     (before /repo e791b10 it verified as long as the sender's own key had signed the event). -/
@@ -638,6 +1031,15 @@ def signedMappingWitness : Event :=
           (b!"mxid_mapping", .obj [(b!"user_room_key", .str b!"KEY"), (b!"user_id", .str b!"@victim:hs1"),
             (b!"signatures", .obj [(b!"hs1", .obj [(b!"ed25519:1", .str b!"AAAA")])])])])] }
 
+/-- K3: the attacker's key `KEY` sends (and self-signs) a join carrying the victim's public mapping
+    (`VICTIMKEY` ↦ `@victim:hs1`, signed by hs1) -/
+def foreignMappingWitness : Event :=
+  { ver := b!"org.matrix.msc4014", eventID := b!"$e", obj :=
+      [(b!"type", .str b!"m.room.member"), (b!"sender", .str b!"KEY"), (b!"state_key", .str b!"KEY"),
+       (b!"content", .obj [(b!"membership", .str b!"join"),
+          (b!"mxid_mapping", .obj [(b!"user_room_key", .str b!"VICTIMKEY"), (b!"user_id", .str b!"@victim:hs1"),
+            (b!"signatures", .obj [(b!"hs1", .obj [(b!"ed25519:1", .str b!"AAAA")])])])])] }
+
 def pseudoAccepted (e : Event) (valid : Request → Bool) (selfValid : Bytes → Bool) : Bool :=
   match VGen.roomVersions.find? (fun r => r.key == "org.matrix.msc4014") with
   | some row => match (verifyPseudo row e valid false selfValid).verdict with
@@ -647,6 +1049,8 @@ def pseudoAccepted (e : Event) (valid : Request → Bool) (selfValid : Bytes →
 
 example : pseudoAccepted unsignedMappingWitness (fun _ => true) (fun n => n == b!"KEY") = false ∧
     pseudoAccepted signedMappingWitness (fun r => r.server == b!"hs1") (fun n => n == b!"KEY") = true ∧
-    pseudoAccepted signedMappingWitness (fun _ => false) (fun n => n == b!"KEY") = false := by decide
+    pseudoAccepted signedMappingWitness (fun _ => false) (fun n => n == b!"KEY") = false ∧
+    -- K3: refused although every signature involved is valid (it verified before the repair)
+    pseudoAccepted foreignMappingWitness (fun _ => true) (fun _ => true) = false := by decide
 
 end V.C06
